@@ -255,7 +255,15 @@ def r22_update_alignment(facts):
                                 if rng.get("k") == "Adt" and rng["adt"].startswith("core::ops::range::Range"):
                                     fl = {f["name"]: f["e"] for f in rng["fields"]}
                                     start = lit_value(fl["start"]) if "start" in fl else 0
-                                vecs[tv]["cons"].append({"trav": t, "how": "drain-front" if start == 0 else "drain-other", "stage": stage, "node": x, "closure": cb})
+                                how_ = "drain-front" if start == 0 else "drain-other"
+                                if rng.get("k") == "Adt" and rng["adt"].startswith("core::ops::range::RangeFrom") and start is None:
+                                    # `v.drain(v.len() - k ..)`: the last k entries
+                                    st_ = strip({f["name"]: f["e"] for f in rng["fields"]}.get("start") or {})
+                                    if st_.get("k") == "Binary" and st_.get("op") == "Sub":
+                                        l_ = peel(st_["l"])
+                                        if isinstance(l_, dict) and l_.get("k") == "Call" and (callee(l_) or "").endswith("::len") and l_["args"] and var_of(l_["args"][0]) == tv:
+                                            how_ = "take-back"
+                                vecs[tv]["cons"].append({"trav": t, "how": how_, "stage": stage, "node": x, "closure": cb})
                             elif xc in ("alloc::vec::Vec::<T, A>::split_off", "alloc::vec::Vec::<T, A>::pop", "alloc::vec::Vec::<T, A>::truncate"):
                                 vecs[tv]["cons"].append({"trav": t, "how": "take-back", "stage": stage, "node": x, "closure": cb})
                             elif xc in ("alloc::vec::Vec::<T, A>::remove", "alloc::vec::Vec::<T, A>::swap_remove", "alloc::vec::Vec::<T, A>::insert"):
@@ -295,6 +303,13 @@ def r22_update_alignment(facts):
                                 "applied to parameter n-1-i (only palindromic masks behave)" % (name, "forwards" if oa == "fwd" else "backwards",
                                                                                               "forwards" if om == "fwd" else "backwards",
                                                                                               "forwards" if ob == "fwd" else "backwards"))
+                    elif co["how"] == "drain-front" and pr["stage"] != co["stage"]:
+                        cond_ = any(any(fr[0] in ("if", "arm", "guard", "after", "after-arm", "logic") for fr in ctx_) for y_, ctx_ in walk_ctx(facts.root(pr["closure"])) if y_ is pr["node"])
+                        if cond_:
+                            c.unk(inst, where, "`%s` is filled conditionally inside a closure that runs before the selection; which parameters contribute is not read" % name)
+                        else:
+                            c.bad(inst, where, "`%s` receives an entry for every parameter that passed %d filter(s) but is drained, front first, by the parameters that passed %d filter(s): "
+                                  "as soon as one parameter is filtered out (a frozen parameter), the parameters after it receive another parameter's values" % (name, pr["stage"], co["stage"]))
                     elif co["how"] == "drain-front":
                         c.check(oa == ob, inst, where, "`%s` is a FIFO: filled and drained from the front in the same parameter order" % name,
                                 "`%s` is filled in one parameter order and drained from the front in the opposite order: parameters receive each other's values" % name)
@@ -512,6 +527,19 @@ def _gradient_derived_vars(facts, bodies):
                             if rv and rv not in g:
                                 g.add(rv)
                                 changed = True
+                # the closure handed to an adaptor of a gradient-derived Option / iterator sees the gradient (or its elements)
+                if n.get("k") == "Call" and len(n.get("args") or []) >= 2 and ((callee(n) or "").startswith("core::option::Option::<") or (callee(n) or "").startswith("core::iter::traits::iterator::Iterator::")):
+                    recv_ = n["args"][0]
+                    if _mentions_gradient(facts, recv_) or any(x.get("k") in ("VarRef", "UpvarRef") and x["v"] in g for x in walk(recv_)):
+                        for a_ in n["args"][1:]:
+                            a0_ = strip(a_)
+                            if isinstance(a0_, dict) and a0_.get("k") == "Closure":
+                                cb_ = facts.body(a0_["closure"])
+                                if cb_ is not None:
+                                    for v, _, _, _ in param_vars(facts, cb_):
+                                        if v not in g:
+                                            g.add(v)
+                                            changed = True
                 fl_ = F.for_loop_parts(n)
                 if fl_:
                     it_, pat_, _, _ = fl_
@@ -1039,6 +1067,14 @@ def r46_update_formula(facts):
             else:
                 new = rhs[1]
             rates = sorted(a for a in new.atoms() if a.startswith("f:"))
+            import re as _re
+            lossy = sorted(a for a in new.atoms() if _re.match(r"(p:)?(round32|trunc)\[", a))
+            inner_rates = sorted({m_ for a in lossy for m_ in _re.findall(r"f:[A-Za-z_0-9]+", a)})
+            if lossy and not rates and len(inner_rates) == 1 and len(gvars) == 1:
+                c.bad(inst, loc(nb, n), "the update stores %r for each element: the step is rounded (%s) before it is applied; gradient descent is old - %s x gradient in the "
+                      "precision of the values" % (new, lossy[0].split("[")[0].replace("p:", ""), inner_rates[0][2:]))
+                rates = inner_rates
+                raise StopIteration
             if len(gvars) != 1 or len(rates) != 1:
                 raise Abstain("the store does not combine one gradient element with one field of the optimizer (%s; %s)" % (gvars, rates))
             want = old - fw.alg.atom(rates[0]) * fw.alg.atom("g")
@@ -1046,6 +1082,8 @@ def r46_update_formula(facts):
                 c.ok(inst, loc(nb, n), "each element becomes old - %s x gradient" % rates[0][2:])
             else:
                 c.bad(inst, loc(nb, n), "the update stores %r for each element; gradient descent is %r" % (new, want))
+        except StopIteration:
+            pass
         except (Abstain, Unsupported, RecursionError) as ex:
             c.unk(inst, loc(nb, n), "the element-wise store is outside the algebra (%s)" % ex)
             continue
@@ -1066,8 +1104,20 @@ def r46_update_formula(facts):
                         n_ctor += 1
                         e = strip(f_["e"])
                         cinst = "rate:%s" % b["def"]
+                        src = e
+                        for _ in range(6):      # clone / copy / borrow / deref of a place are the place's value
+                            src = peel(src)
+                            if isinstance(src, dict) and src.get("k") == "Call" and (callee(src) or "").endswith("::clone") and len(src.get("args") or []) == 1:
+                                src = src["args"][0]
+                            else:
+                                break
+                        s_root, s_chain = field_chain(src) if isinstance(src, dict) else (None, None)
                         if e.get("k") in ("VarRef", "UpvarRef") and e["v"] in pvars:
                             c.ok(cinst, loc(b, f_["e"]), "the rate field is the constructor's argument as given")
+                        elif s_chain == [fname] and isinstance(s_root, dict) and adt in (s_root.get("ty") or ""):
+                            c.ok(cinst, loc(b, f_["e"]), "the rate field is copied from the same field of another %s" % adt.split("::")[-1])
+                        elif e.get("k") == "Literal" or (e.get("k") == "Unary" and strip(e.get("e") or {}).get("k") == "Literal"):
+                            c.ok(cinst, loc(b, f_["e"]), "the rate field is a constant (no argument to carry)")
                         elif any(y.get("k") in ("VarRef", "UpvarRef") and y["v"] in pvars for y in walk(e)):
                             c.bad(cinst, loc(b, f_["e"]), "the constructor stores `%s`, not its rate argument as given: update then steps by a different rate than the one requested "
                                   "(e.g. a negative rate loses its sign)" % show(e)[:60])
